@@ -228,6 +228,15 @@ def solve_scipy(
                 max_violation = max(max_violation, violation)
                 constraints_violated = True
 
+    # Variable bounds are only enforced by methods that accept them (not e.g. BFGS)
+    if bounds:
+        for i, (lb, ub) in enumerate(bounds):
+            x_i = float(result.x[i])
+            violation = max(lb - x_i, x_i - ub)
+            if violation > atol + rtol * max(1.0, abs(x_i)):
+                max_violation = max(max_violation, violation)
+                constraints_violated = True
+
     # If SLSQP returned "optimal" but constraints are violated, retry with trust-constr
     if result.success and constraints_violated and method == "SLSQP":
         warnings.warn(
